@@ -80,6 +80,11 @@ def tasks(tier):
         cfg = dict(M=140, alphabet=["x:T"], timeline=True, operation="opname", max_unknown=None,
                    strat_menu=[0])
         out.append({"family": "stream-long-run", "cfg": cfg, "entry": e, "bound": 0})
+    # `raise X from low_level`: the err tag names X, the exception the attempt failed with
+    for e in RETRY_ENTRIES + POLICY_ENTRIES[:2]:
+        cfg = dict(M=3, alphabet=["ok", "xq:T", "xq:P", "x:T", "r:T"], handler="call", timeline=True,
+                   operation="opname", max_unknown=1)
+        out.append({"family": "stream-chained-cause", "cfg": cfg, "entry": e, "bound": bound})
     # only one of the sinks attached (the timeline must not depend on a metric hook)
     for metric, log in [(False, True), (True, False), (False, False)]:
         cfg = dict(M=3, alphabet=ALPHA, abort=True, handler="call", timeline=True, metric=metric,
